@@ -6,7 +6,8 @@ import time
 
 VERIF = os.path.dirname(os.path.dirname(os.path.abspath(__file__)))
 KNOWN_FILE = os.path.join(VERIF, 'known_findings.json')
-EVIDENCE_DIR = os.path.join(VERIF, 'evidence')
+# self-test / mutant runs redirect their evidence so that committed evidence always comes from /repo itself
+EVIDENCE_DIR = os.environ.get('SA_EVIDENCE_DIR') or os.path.join(VERIF, 'evidence')
 REPLAY_DIR = os.path.join(EVIDENCE_DIR, 'replay')
 
 
